@@ -49,16 +49,18 @@ CHECKS = {'C09': {'category': 'translation_validation',
                  'traverse slot. All 4420 configurations are also run on the real code, and families of prefix-sharing hashes are inserted into a real FeldmanHashSet.',
          'note': 'split_bitstring/byte_splitter are hand models tied by differential runs; head width 64 is undefined (known finding with proved witness); widths above 32 with byte-array hashes are '
                  "outside split_bitstring's unsigned result (proved witness)."},
- 'C01': {'category': 'translation_validation',
-         'note': 'SC interleavings only (threads serialised by a baton at every atomic operation); explored schedules only (seeded random, PCT, exhaustive <=1/<=2 preemptions of small programs); '
-                 'memory orders not modelled; Lean kernel + propext/Classical.choice/Quot.sound for the checker theorem. std::sort/binary_search/lower_bound modelled by contract; retire discipline '
-                 '(retire after unlink, once) obeyed by the harness client.',
-         'technique': 'Lean 4 theorems about the reclamation decision of a scan pass (pure model tied by differential runs on the real classic_scan/inplace_scan) + disposer-time oracle on the real '
-                      'HP under a deterministic scheduler',
-         'text': 'The decision of one scan pass (what is freed given the collected hazards and the retired array, both strategies including the odd-address fallback) is a Lean model with theorems '
-                 "'nothing equal to a hazard is freed'; it is tied to the real functions by differential runs. The interleaving-level clause (a guard validated before retirement is seen by every "
-                 'later pass) is decided on explored schedules of the real code by an oracle evaluated inside the disposer: no guard whose protect() completed may exist for the object. The protocol '
-                 'theorem over all schedules is work in progress and not claimed.'},
+ 'C01': {'category': 'proof',
+         'note': 'SC interleavings only (threads serialised by a baton at every atomic operation); memory orders not modelled; explored schedules only for the history/oracle/trace ties; Lean kernel '
+                 '+ propext/Classical.choice/Quot.sound. std::sort/binary_search/lower_bound modelled by contract; retire discipline (retire after unlink, once) obeyed by the harness client.',
+         'technique': "Lean 4: hazard-pointer protocol machine (protect / clear / retire / classic scan, any H, T, R, any client program obeying the retire discipline) with the theorem 'a guarded "
+                      "object is never disposed' over all schedules + atomic-trace conformance of the real cds::gc::HP against that machine + theorems on the scan decision of both strategies tied by "
+                      'differential runs + disposer-time oracle',
+         'text': 'Algo/HP/Protocol: one step per atomic operation of Guard::protect (load, hazard store, validating re-load), clear, retire (array push, scan when full) and classic_scan (one load '
+                 'per hazard slot, then the stage-2 decision = the pure function of Algo/HP/Scan). C01_guarded_never_disposed and the exactly-once theorems hold for every schedule. The real code '
+                 "(hp_classic variants, static thread records) is replayed against the machine step by step, values included; the start state is the machine's own run of the client's prefill "
+                 '(reachability proved in Algo/HP/Replay) and the executable form of the safety theorem is evaluated after every replayed step. inplace_scan, attach/detach, record reuse and '
+                 'help_scan are outside the machine: the scan decision of both strategies is a Lean function with its own theorems tied to the real classic_scan/inplace_scan by differential runs, '
+                 'and the rest is decided by the disposer-time oracle on explored schedules.'},
  'C02': {'category': 'translation_validation',
          'technique': 'disposer-time oracle on the real DHP under a deterministic scheduler (initial guard counts 4..32, 40 guards per thread to force guard-block extension, detach/re-attach) + Lean '
                       'theorem on the shared scan decision model + HP protocol theorem',
@@ -67,14 +69,13 @@ CHECKS = {'C09': {'category': 'translation_validation',
                  'schedules by the disposer-time oracle only.',
          'note': 'SC interleavings only (threads serialised by a baton at every atomic operation); memory orders not modelled; explored schedules only for the history/oracle/trace ties; Lean kernel '
                  '+ propext/Classical.choice/Quot.sound.'},
- 'C03': {'category': 'translation_validation',
-         'note': 'SC interleavings only (threads serialised by a baton at every atomic operation); explored schedules only (seeded random, PCT, exhaustive <=1/<=2 preemptions of small programs); '
-                 'memory orders not modelled; Lean kernel + propext/Classical.choice/Quot.sound for the checker theorem.',
-         'technique': 'Lean 4 theorems (a pass partitions the retired array: kept + freed is a permutation; unprotected => freed) on the scan model tied by differential runs + exactly-once oracles '
-                      'on HP/DHP (per-object disposer counter, quiet-scan completeness, count after destruction)',
-         'text': 'Per pass: nothing lost or duplicated and every unprotected entry freed are Lean theorems about the decision model (both HP strategies). Across passes, help_scan adoption, detach '
-                 'and destruction are decided on explored schedules by counting disposer calls per object and checking after destruction of the singleton that every retired object was disposed '
-                 'exactly once; thorough adds an ASan build and the retired-capacity boundary.'},
+ 'C03': {'category': 'proof',
+         'note': 'SC interleavings only (threads serialised by a baton at every atomic operation); memory orders not modelled; explored schedules only for the history/oracle/trace ties; Lean kernel '
+                 '+ propext/Classical.choice/Quot.sound. DHP storage growth, attach/detach/help_scan: no machine.',
+         'technique': 'Lean 4: exactly-once theorems over the hazard-pointer protocol machine (all schedules) + atomic-trace conformance of the real HP + scan-decision theorems tied by differential '
+                      'runs + end-of-case count oracle for HP and DHP (destruction, help_scan adoption, DHP block growth)',
+         'text': "Every retired object is disposed at most once and only after retirement (theorems over Algo/HP/Protocol, tied by trace replay as in C01); 'exactly once no later than destruction' "
+                 "for detach/help_scan/destruction and for DHP's block lists is decided on explored schedules by counting disposer calls per object at the end of every case."},
  'C06': {'category': 'translation_validation',
          'note': 'SC interleavings only (threads serialised by a baton at every atomic operation); explored schedules only (seeded random, PCT, exhaustive <=1/<=2 preemptions of small programs); '
                  'memory orders not modelled; Lean kernel + propext/Classical.choice/Quot.sound for the checker theorem.',
@@ -113,23 +114,21 @@ CHECKS = {'C09': {'category': 'translation_validation',
          'note': 'SC interleavings only (threads serialised by a baton at every atomic operation); memory orders not modelled; explored schedules only for the history/oracle/trace ties; Lean kernel '
                  '+ propext/Classical.choice/Quot.sound. No atomic-step model of the Hunt heap.'},
  'C13': {'category': 'translation_validation',
-         'note': 'SC interleavings only (threads serialised by a baton at every atomic operation); explored schedules only (seeded random, PCT, exhaustive <=1/<=2 preemptions of small programs); '
-                 'memory orders not modelled; Lean kernel + propext/Classical.choice/Quot.sound for the checker theorem.',
-         'technique': 'Lean 4: histories of the real containers under a deterministic scheduler judged against the Lean sequential specification by a linearizability checker proved sound and '
-                      'complete in Lean',
-         'text': '31 list variants (Michael/Lazy/Iterable; set and kv; HP/DHP/RCU gpi,gpb; intrusive; nogc; compare/less; item counter). The executable Lean model here is the sequential '
-                 'specification (Spec.mapConc (keys strict, functor payloads not atomic with the operation)) plus the definition of linearizability; the proved theorem is that the checker decides it '
-                 "exactly, so a history the real code produces is accepted iff it is linearizable. The containers' algorithms themselves are not yet modelled step by step: the claim is validation of "
-                 'every explored execution of the real code against the model, not a proof over all schedules. '},
+         'note': 'SC interleavings only (threads serialised by a baton at every atomic operation); memory orders not modelled; explored schedules only for the history/oracle/trace ties; Lean kernel '
+                 '+ propext/Classical.choice/Quot.sound. Garbage-collected heap in the machine (no node reuse: what C01/C02 provide).',
+         'technique': 'Lean 4: MichaelList machine (search with helping, link, mark, single unlink attempt) proved linearizable to the map specification for all schedules incl. hindsight cases + '
+                      'atomic-trace conformance of the real intrusive MichaelList + histories of every ordered-list variant judged by the verified linearizability checker',
+         'text': 'C13_michael_linearizable (Herlihy-Wing with pending operations), C13_michael_effect_instant / absent_hindsight / present_hindsight, chain_sorted, marked_frozen, erase_once hold for '
+                 "any number of threads and keys. The real list is replayed against the machine (head and every node's next word, mark bits, results). LazyList, IterableList, KV forms, RCU and nogc "
+                 "specialisations have no machine: their histories (and MichaelList's) are judged against Spec.mapConc / Spec.map by the verified checker on explored schedules."},
  'C14': {'category': 'translation_validation',
-         'note': 'SC interleavings only (threads serialised by a baton at every atomic operation); explored schedules only (seeded random, PCT, exhaustive <=1/<=2 preemptions of small programs); '
-                 'memory orders not modelled; Lean kernel + propext/Classical.choice/Quot.sound for the checker theorem.',
-         'technique': 'Lean 4: histories of the real containers under a deterministic scheduler judged against the Lean sequential specification by a linearizability checker proved sound and '
-                      'complete in Lean',
-         'text': '53 hash variants (MichaelHashSet/Map over every list, SplitList static/dynamic tables with growth, FeldmanHashSet/Map at minimal widths with shared-prefix hashes; HP/DHP/RCU/nogc). '
-                 'The executable Lean model here is the sequential specification (Spec.mapConc) plus the definition of linearizability; the proved theorem is that the checker decides it exactly, so '
-                 "a history the real code produces is accepted iff it is linearizable. The containers' algorithms themselves are not yet modelled step by step: the claim is validation of every "
-                 'explored execution of the real code against the model, not a proof over all schedules. '},
+         'note': 'SC interleavings only (threads serialised by a baton at every atomic operation); memory orders not modelled; explored schedules only for the history/oracle/trace ties; Lean kernel '
+                 '+ propext/Classical.choice/Quot.sound. SplitList / Feldman: no algorithm model.',
+         'technique': "Lean 4: locality of linearizability proved for the framework's definition + 'a table of linearizable bucket maps routed by any bucket function is a linearizable map' + "
+                      'histories of MichaelHashSet/Map, SplitListSet/Map, FeldmanHashSet/Map judged by the verified checker',
+         'text': "Base/Locality proves Herlihy-Wing Theorem 1 for Base/Lin's definition (constructive merge by minimal invocation among the component heads) and Base/LocalityMap lifts it to Spec.map "
+                 "for keyed operations (C14_table_of_linearizable_buckets); together with C13's MichaelList theorem this gives MichaelHashSet over MichaelList at the level of histories. All variants "
+                 '(including growth of split lists and Feldman array-node expansion, colliding hashes, the *_with overloads) are decided by histories of the real code on explored schedules.'},
  'C15': {'category': 'translation_validation',
          'note': 'SC interleavings only (threads serialised by a baton at every atomic operation); explored schedules only (seeded random, PCT, exhaustive <=1/<=2 preemptions of small programs); '
                  'memory orders not modelled; Lean kernel + propext/Classical.choice/Quot.sound for the checker theorem.',
@@ -164,20 +163,19 @@ CHECKS = {'C09': {'category': 'translation_validation',
          'note': 'SC interleavings only (threads serialised by a baton at every atomic operation); explored schedules only for the history/oracle ties; memory orders not modelled; Lean kernel + '
                  'propext/Classical.choice/Quot.sound. general_threaded and signal_buffered (OS thread / signals) are not run; std::mutex replaced by the spin lock through the template parameter; '
                  'the buffer is an atomic bag in the model (its queue is judged by C07).',
-         'technique': 'Lean 4: inductive invariants over an atomic-step machine of the general-purpose RCU (two-phase flip, nesting, epoch tagging, buffer overflow, destruct) for all schedules and '
-                      'thread counts + oracles evaluated on the real general_instant/general_buffered under a deterministic scheduler',
-         'text': 'C04_grace_period, C04_no_dispose_under_preexisting_reader (both general flavours, including the epoch-tag lemma), C04_nested are Lean theorems about a hand model of '
-                 'gp.h/gpi.h/gpb.h. The model is tied to the code by oracles on the real execution (disposer-time check against every open critical section that began before the retire, '
-                 'synchronize-return check, deref of poisoned objects), 30000+ schedules per run including buffer capacity 1 and overflow; the trace-conformance replay of this machine is not wired '
-                 'yet (named in the evidence).'},
+         'technique': 'Lean 4: machine of general_instant and general_buffered RCU (two-phase flip, per-thread control words, nesting, epoch-tagged buffer, overflow, destruct) with the grace-period '
+                      'theorems over all schedules + atomic-trace conformance of the real gpi/gpb + reader/disposer oracles on explored schedules',
+         'text': "C04 theorems (no object retired before a pre-existing reader's section ended is disposed while that reader is inside; synchronize returns only after pre-existing readers left) hold "
+                 'for every schedule, thread count, nesting depth and buffer capacity. The real code is replayed against the machine step by step: global and per-thread control words in the order '
+                 "flip_and_wait visits them, the writers' lock, the epoch counter, one pseudo-event per buffer call and per disposer call. Named exclusions of the replay: batch_retire, the library's "
+                 'default (non-counting) buffer type, general_threaded and signal_buffered flavours (OS primitives); those that can run are covered by the oracles.'},
  'C05': {'category': 'proof',
          'note': 'SC interleavings only (threads serialised by a baton at every atomic operation); explored schedules only for the history/oracle ties; memory orders not modelled; Lean kernel + '
                  'propext/Classical.choice/Quot.sound. same limits as C04.',
-         'technique': 'Lean 4: conservation invariant (every retired object in exactly one place) and exactly-once theorems over the same RCU machine incl. destruct + per-object disposer counters on '
-                      'the real code',
-         'text': 'C05_at_most_once, C05_only_after_retire, C05_only_after_grace_period, C05_conservation, C05_all_disposed_after_destruct are Lean theorems about the RCU machine (including the '
-                 'element whose push failed on a full buffer and the pushed-back element with a newer epoch). The real flavours are run with per-object counters checked after destruction of the '
-                 'singleton.'},
+         'technique': 'Lean 4: exactly-once / destruct theorems over the RCU machine (all schedules) + atomic-trace conformance of the real gpi/gpb + end-of-case disposer counts',
+         'text': 'Every retired object is disposed exactly once, after a grace period, no later than destruction of the singleton, including objects that arrive when the buffer is full (push '
+                 'failure: synchronize and dispose directly) and objects re-pushed by clear_buffer because their epoch is newer. Theorems over Algo/RCU for all schedules; tie by trace replay (see '
+                 'C04) and by counting disposer calls per object after destruction.'},
  'C12': {'category': 'proof',
          'note': 'SC interleavings only (threads serialised by a baton at every atomic operation); explored schedules only for the history/oracle ties; memory orders not modelled; Lean kernel + '
                  'propext/Classical.choice/Quot.sound. counters are Nat (no 2^64 wrap); capacity rounded to a multiple of 8 by the constructor after the fix commit.',
@@ -214,13 +212,17 @@ CHECKS = {'C09': {'category': 'translation_validation',
                  "own run of the client's initial puts. CachedFreeList has no machine and is decided by the client's oracles.",
          'note': 'SC interleavings only (threads serialised by a baton at every atomic operation); memory orders not modelled; explored schedules only for the history/oracle/trace ties; Lean kernel '
                  '+ propext/Classical.choice/Quot.sound. FreeList count below 2^31, TaggedFreeList tag unbounded; CachedFreeList: explored schedules only.'},
- 'C24': {'category': 'exploration',
-         'technique': 'ownership / marker / destructor / preallocated-range oracles on the real vyukov_queue_pool, lazy, bounded pools and pool_allocator under a deterministic scheduler, up to and '
-                      'past capacity; the pooled type has a constructor and destructor with visible effects that are scheduling points; the underlying queue is the machine proved in C07',
-         'text': 'Decided on explored schedules only: double-alloc, corrupted marker, destroyed-while-allocated, foreign object, heap-while-free, spurious bad_alloc, and at quiescence '
-                 'lost-pool-object / overcommit / lazy reuse order / leak. Rests on C07 (Lean machine + trace conformance) for the underlying queue.',
-         'note': 'SC interleavings only (threads serialised by a baton at every atomic operation); memory orders not modelled; explored schedules only for the history/oracle/trace ties; Lean kernel '
-                 '+ propext/Classical.choice/Quot.sound.'},
+ 'C24': {'category': 'proof',
+         'technique': "Lean 4: machine of vyukov_queue_pool / lazy / bounded pools over an abstract atomic bounded FIFO (justified by C07's linearizability theorem and trace tie of the real Vyukov "
+                      'queue) with ownership theorems over all schedules + refinement of the sequential pool specification + histories of the real pools judged against that specification by the '
+                      'verified linearizability checker + ownership / marker / destructor oracles',
+         'text': 'C24_no_two_holders, C24_alloc_returns_unheld, C24_dealloc_makes_available, C24_block_objects_kept and C24_machine_refines_spec hold for every schedule, thread count and capacity. '
+                 'Histories of the real pools (all three kinds, pool_allocator, capacities 2 and 4, up to and past capacity) are judged against Spec.pool (an allocation returns the OLDEST free '
+                 "object and goes to the heap / fails only when the free queue is empty), started from the free queue read from the real ring after the warm-up; the client's oracles (double-alloc, "
+                 'corrupted marker, destroyed-while-allocated with a pooled type whose constructor/destructor are scheduling points, foreign object, leak, lazy reuse order) run on the same '
+                 'executions.',
+         'note': "SC interleavings only; memory orders not modelled; the composition 'pool over a linearizable queue behaves like pool over an atomic queue' is the standard linearizability argument, "
+                 'not a Lean theorem; explored schedules only for the history/oracle ties; Lean kernel + propext/Classical.choice/Quot.sound.'},
  'C18': {'category': 'translation_validation',
          'technique': 'Lean 4: well-formedness predicates over dumps of the quiescent structures with theorems (well-formed => traversal exact, strictly increasing, duplicate-free; skip-list levels '
                       'are ordered sub-lists; search-tree order; strict AVL; split order) + the dump of every explored final state of the real containers judged by those Lean functions + final '
